@@ -2253,6 +2253,9 @@ class Service:
         # Put together a set of the service and method names.
         answer = {self.name, self.client_name, self.async_client_name}
         answer.update(utils.to_snake_case(i.name) for i in self.methods.values())
+        answer.update(
+            utils.to_snake_case(i.client_method_name) for i in self.methods.values()
+        )
 
         # Identify any import module names where the same module name is used
         # from distinct packages.
